@@ -802,15 +802,33 @@ func orAccepted(s string) string {
 
 func monC06(f *Facts) []Violation {
 	var vs []Violation
-	if f.HasReload {
-		return nil
+	// "under an unchanged definition": only jobs accepted after the last reload of the history are compared
+	lastReload := -1
+	for i, e := range f.Log {
+		if e.Kind == EvApiCall && strings.HasPrefix(e.Detail, "R(") {
+			lastReload = i
+		}
 	}
 	for _, idx := range f.JobOrder {
 		j := f.Jobs[idx]
-		if j.StartEv < 0 {
+		if j.StartEv < 0 || j.AcceptEv < lastReload {
 			continue
 		}
 		d := f.Log[j.StartEv].Dump
+		// the whole queue must have been accepted under the definition in force: a waiting job from before the
+		// last reload (e.g. one with a start delay the current definition does not have) is outside the statement
+		mixed := false
+		for k := range d.Jobs {
+			o := &d.Jobs[k]
+			if o.Pipeline == j.Pipeline && o.Waiting() {
+				if oj := f.Jobs[o.Idx]; oj == nil || oj.AcceptEv < lastReload {
+					mixed = true
+				}
+			}
+		}
+		if mixed {
+			continue
+		}
 		for k := range d.Jobs {
 			o := &d.Jobs[k]
 			if o.Pipeline == j.Pipeline && o.Idx < idx && o.Waiting() {
